@@ -58,6 +58,35 @@ func (vt *v2T) scenC02() {
 		xs = append(xs, scen[k])
 	}
 	xs = append(xs, []byte("some arbitrary prose that is not a license at all but mentions the word license and copyright\n"))
+	// single-word swaps the scoring rules treat specially: every one of them is a real word difference, so the
+	// reported distance must count it (or the candidate must be vetoed) -- never report it as identical
+	swaps := [][2]string{{"lesser", "library"}, {"library", "lesser"}, {"Lesser", "Library"}, {"Library", "Lesser"}, {"2.0", "3.0"}, {"2.1", "3.0"}, {"version 2", "version 3"},
+		{"apache", "bsd"}, {"Apache", "Artistic"}, {"warranty", "guarantee"}, {"gnu", "gnat"}, {"GNU", "GNAT"}}
+	nsw := 0
+	for _, d := range docs {
+		if nsw >= 14 && !vt.thorough() {
+			break
+		}
+		if !(strings.Contains(d.Key, "GPL") || strings.Contains(d.Key, "Apache") || strings.Contains(d.Key, "MPL")) || len(d.Data) > 30000 {
+			continue
+		}
+		sw := swaps[vt.rng.Intn(len(swaps))]
+		txt := string(d.Data)
+		if i := strings.Index(txt, sw[0]); i >= 0 {
+			// the k-th occurrence, seeded
+			occ := strings.Count(txt, sw[0])
+			k := vt.rng.Intn(occ)
+			pos := 0
+			for j := 0; j <= k; j++ {
+				pos += strings.Index(txt[pos:], sw[0])
+				if j < k {
+					pos += len(sw[0])
+				}
+			}
+			xs = append(xs, []byte(txt[:pos]+sw[1]+txt[pos+len(sw[0]):]))
+			nsw++
+		}
+	}
 	for _, x := range xs {
 		vt.match(c, x, v2MatchOpts{scored: true})
 		vt.reset(false)
@@ -144,6 +173,17 @@ func (vt *v2T) scenC04() {
 	for _, k := range names[:8] {
 		inputs = append(inputs, scen[k])
 	}
+	// inputs shorter than the read buffer that end in a truncated UTF-8 sequence, and fillers made of two-byte
+	// runes in both alignments: a buffer (or any other state) carried over from an earlier call would show
+	for k := 0; k < 4; k++ {
+		d := base[sub.rng.Intn(len(base))]
+		cut := d.Data
+		if len(cut) > 700 {
+			cut = cut[:500+sub.rng.Intn(200)]
+		}
+		inputs = append(inputs, append(append([]byte(nil), cut...), [][]byte{{0xc3}, {0xe2, 0x80}, {0xf0, 0x9f}, {0xc5}}[k]...))
+	}
+	inputs = append(inputs, []byte(strings.Repeat("é", 1600)), []byte(" "+strings.Repeat("é", 1600)), []byte(strings.Repeat("\u2019x", 900)))
 	// many notice lines around several licenses: more than a dozen fully tied candidates, which is what an
 	// unstable sort needs in order to show an incomplete ordering
 	{
@@ -240,6 +280,9 @@ func (r *v2ChunkReader) Read(p []byte) (int, error) {
 func (vt *v2T) scenC08() {
 	docs := v2Corpus()
 	c := vt.build("c08", 0.8, docs)
+	mbWords := strings.Fields("café naïve résumé Жизнь 𝒜lpha 𝒜beta smörgåsbord façade coöperate übermut señor Ångström élan piñata jalapeño crème brûlée fiancée touché soufflé cliché décor protégé sauté exposé née mañana doppelgänger")
+	mbDoc := v2Doc{Key: "License/Multibyte/license.txt", Cat: "License", Name: "Multibyte", Variant: "license.txt", Data: []byte(strings.Join(mbWords, " ") + "\n" + strings.Join(mbWords[3:], " ") + "\n" + strings.Join(mbWords[:20], " ") + "\n")}
+	vt.add(c, mbDoc)
 	var mit, apacheHdr v2Doc
 	for _, d := range docs {
 		if d.Key == "License/MIT/pristine.txt" {
@@ -256,7 +299,8 @@ func (vt *v2T) scenC08() {
 		return []byte(strings.Replace(s, ". ", ". \xff\xfe ", 3))
 	}
 	var contents [][]byte
-	contents = append(contents, multi(mit.Data), multi(apacheHdr.Data), mit.Data)
+	long := append(append(append([]byte(nil), mit.Data...), mbDoc.Data...), apacheHdr.Data...)
+	contents = append(contents, append(append(multi(mit.Data), '\n'), mbDoc.Data...), multi(apacheHdr.Data), append(append(long, long...), mbDoc.Data...))
 	nd := 6
 	if vt.thorough() {
 		nd = 40
@@ -271,7 +315,8 @@ func (vt *v2T) scenC08() {
 		nl := v2NLines(content)
 		id := v2Ident(nl)
 		// (1) fragmentations
-		frags := [][]int{{1}, {1 << 20}, {7}, {1024}, {1020, 4}, {1023, 1, 1}, {3, 1021}, {vt.rng.Intn(2000) + 1, vt.rng.Intn(50) + 1, vt.rng.Intn(1100) + 1}}
+		frags := [][]int{{1}, {1 << 20}, {7}, {1024}, {1020, 4}, {1023, 1, 1}, {3, 1021}, {vt.rng.Intn(2000) + 1, vt.rng.Intn(50) + 1, vt.rng.Intn(1100) + 1},
+			{1024, 1016}, {1024, 1017}, {1024, 1018}, {1024, 1019, 5}, {1000, 24, 1016, 1020, 1016, 1018}, {1024, 1016 + vt.rng.Intn(4), 1020, 1016 + vt.rng.Intn(4)}}
 		for fi, fr := range frags {
 			fr := fr
 			eof := fi%2 == 1
